@@ -17,7 +17,7 @@ def gen_desc(verif_seed: int, i: int, tier: str = "quick") -> dict:
     rng = random.Random(rs)
     udesc = gen_universe(rng)
     entry = "engine" if rng.random() < 0.65 else "cli"
-    # checks that send requests of their own are never enabled here
+    # checks that send requests of their own are enabled only in the rate-limit focus (their requests are rate-limited too)
     cfg = gen.gen_engine_config(rng, entry=entry, max_examples_range=(1, 8), checks_pool=["not_a_server_error", "status_code_conformance", "sim_marker"])
     focus = rng.choice(["max_examples", "max_failures", "stop", "unique", "rate", "steps"])
     behaviour: list[dict] = []
@@ -54,6 +54,16 @@ def gen_desc(verif_seed: int, i: int, tier: str = "quick") -> dict:
     elif focus == "rate":
         cfg["rate_limit"] = rng.choice(["2/s", "5/s", "10/s", "20/s", "30/m", "100/m"])
         cfg["max_examples"] = rng.randint(3, 8)
+        r2 = random.Random(rs ^ 0x5EC)
+        if r2.random() < 0.5:
+            # requests a check sends on its own (the ignored_auth probes) count against the same limit: secured operations,
+            # explicit credentials, ignored_auth enabled
+            key = "key-%d" % r2.randrange(10**6)
+            udesc["security"] = {"scheme": "apikey", "header": "X-API-Key", "expected": {"header": "X-API-Key", "value": key}}
+            for c in udesc["collections"]:
+                c["secured"] = list(c["kinds"])
+            cfg["headers"] = {"X-API-Key": key}
+            cfg["checks"] = sorted(set(cfg["checks"]) | {"ignored_auth"})
     elif focus == "steps":
         cfg["phases"] = sorted(set(cfg["phases"]) | {"stateful"}, key=["probing", "examples", "coverage", "fuzzing", "stateful"].index)
         cfg["step_count"] = rng.choice([2, 3, 4, 6, None])
@@ -64,6 +74,8 @@ def gen_desc(verif_seed: int, i: int, tier: str = "quick") -> dict:
         cfg["argv"] = cli_argv(cfg, udesc)
         if cfg.get("rate_limit"):
             cfg["argv"] += ["--rate-limit", cfg["rate_limit"]]
+        for hk, hv in (cfg.get("headers") or {}).items():
+            cfg["argv"] += ["-H", f"{hk}: {hv}"]
         if cfg.get("step_count"):
             # no CLI flag for the step count in this version: drop it from the reference
             cfg["step_count"] = None
@@ -102,13 +114,13 @@ ASSUMPTIONS = [
     "the stop instant is the global sequence number at which the engine's stop Event was set",
     "checks that send requests of their own are disabled",
 ]
-EXPECTED_PROBES = ["limit_reached", "consumer_stop", "ctrl_c", "rate_sleep", "unique_runs", "steps_runs"]
+EXPECTED_PROBES = ["limit_reached", "consumer_stop", "ctrl_c", "rate_sleep", "unique_runs", "steps_runs", "check_probes", "stalls"]
 
 
 def fired_faults(desc: dict, res: dict) -> dict:
     st = res.get("stats") or {}
     out = dict(st.get("peer_fired") or {})
-    for k in ("limit_reached", "stop_fired", "rate_sleep", "unique_runs", "steps_runs"):
+    for k in ("limit_reached", "stop_fired", "rate_sleep", "unique_runs", "steps_runs", "check_probes", "stalls"):
         if st.get(k):
             out[k if k != "stop_fired" else "consumer_stop"] = int(st[k]) if not isinstance(st[k], bool) else 1
     if st.get("ctrl_c_fired"):
@@ -193,6 +205,8 @@ class C12Profile(Profile):
             "transitions": sum(1 for e in fin for c in e.recorder.cases.values() if c.transition is not None),
             "rate_sleep": ctx.sched.kind_counts.get("sleep", 0) if cfg.get("rate_limit") else 0,
             "rate_worst_window": ctx.extra.get("rate_worst"),
+            "check_probes": ctx.extra.get("c12_probes") or 0,
+            "stalls": len(ctx.facts.get("stalls") or []),
             "unique_runs": 1 if cfg.get("unique_inputs") else 0,
             "steps_runs": 1 if ctx.desc.get("focus") == "steps" else 0,
         }
